@@ -698,6 +698,8 @@ Qed.
 
 Lemma cur_infix_no_stamp : parse_ts_local std_fmt cur_infix = None.
 Proof. vm_compute. reflexivity. Qed.
+Lemma cur_infix_not_canonical : canonical_ts std_fmt cur_infix = false.
+Proof. unfold canonical_ts. rewrite cur_infix_no_stamp. reflexivity. Qed.
 
 Section TsNamesListing.
 Variables (off : Z) (c : config) (crit : criterion) (k : cleanup) (sel : selector) (e : Z).
@@ -710,7 +712,7 @@ Lemma cname_filters_ts :
   /\ p_cur off c sel (cname c) = sel_rcur sel
   /\ p_custom off c sel (cname c) = cur_custom sel.
 Proof.
-  unfold pt_plain, pt_gz, p_cur, p_custom, cur_custom, qf. rewrite candidate_cname. cbn [filter_infix]. rewrite cur_infix_no_stamp, andb_false_r.
+  unfold pt_plain, pt_gz, p_cur, p_custom, cur_custom, qf. rewrite candidate_cname. cbn [filter_infix]. rewrite cur_infix_not_canonical, andb_false_r.
   split; [reflexivity|]. split.
   - unfold infix_candidate. rewrite (cname_no_gz c G). apply andb_false_r.
   - rewrite beq_refl, andb_true_r. split; reflexivity.
@@ -730,7 +732,7 @@ Lemma kname_filters_ts key : in_years e (fst key) ->
   /\ p_cur off c sel (kname c e key) = false /\ p_custom off c sel (kname c e key) = false.
 Proof.
   intros Y. unfold pt_plain, pt_gz, p_cur, p_custom, qf. rewrite (candidate_kname c e key Y). cbn [filter_infix].
-  rewrite (parse_tsx e _ Y), andb_true_r. split; [reflexivity|]. split.
+  rewrite (canonical_tsx e _ Y), andb_true_r. split; [reflexivity|]. split.
   { unfold infix_candidate. rewrite (kname_no_gz c e key G Y). apply andb_false_r. }
   assert (Nc : beq (tsx e (fst key)) cur_infix = false).
   { apply beq_neq. intros E. apply (tsx_app_not_cur e (fst key) [] [] Y). rewrite !app_nil_r. exact E. }
